@@ -67,7 +67,7 @@ def monitors():
 
 
 def body_factory(tier, known):
-    max_jobs = 3 if tier == 'quick' else 8
+    max_jobs = 3 if tier == 'quick' else 5
     max_rejects = 3 if tier == 'quick' else 100
     max_net = 2 if tier == 'quick' else 100
 
@@ -175,7 +175,7 @@ KNOWN = ()
 
 
 def shard(ctx, i, acc):
-    n = 2 if ctx['tier'] == 'quick' else 20
+    n = 2 if ctx['tier'] == 'quick' else 6
     explore(ctx, i, acc, monitors, n, nontrivial=nontrivial, classes=classes,
             body=body_factory(ctx['tier'], set(KNOWN)), inject=True,
             known_sigs=set(KNOWN))
